@@ -16,6 +16,10 @@ pub struct Shared {
     pub waiting: AtomicBool,
     /// on_stop has been entered (generator steering only)
     pub in_stop: AtomicBool,
+    /// handlers that have run to their end (normally or by the scripted panic), and the longest /
+    /// total time (std clock, ns) spent strictly inside a handler body — the metrics oracle's view
+    pub handler_ends: std::sync::atomic::AtomicU64,
+    pub max_inner_ns: std::sync::atomic::AtomicU64,
     pub start_out: SOut,
     pub stop_out: SOut,
     pub run_outs: Vec<ROut>,
@@ -121,10 +125,13 @@ pub struct Msg {
 impl Message<Msg> for ScriptActor {
     type Reply = u64;
     async fn handle(&mut self, m: Msg, _r: &ActorRef<Self>) -> u64 {
+        let t_in = std::time::Instant::now();
         log::actor(format!("handlerStart {}", m.mid));
         self.hooks.push(format!("h{}", m.mid));
         let sh = self.sh.clone();
         gate_wait(&sh).await;
+        sh.max_inner_ns.fetch_max(t_in.elapsed().as_nanos() as u64, Ordering::SeqCst);
+        sh.handler_ends.fetch_add(1, Ordering::SeqCst);
         if m.panic {
             log::actor(format!("handlerEnd {} panic", m.mid));
             panic!("scripted panic in handler")
@@ -185,6 +192,57 @@ pub struct World {
     pub next_oid: u64,
     /// route operations through type-erased wrappers chosen from this stream (C16); None = direct
     pub erase: Option<crate::rng::Rng>,
+    /// last message_count seen (metrics oracle: never decreases)
+    pub last_count: u64,
+}
+
+impl World {
+    /// C20 oracle, applied at every quiescent point to every strong handle (also long after the actor
+    /// has ended): the collector against the harness's own account of what the handlers did.
+    #[cfg(feature = "metrics")]
+    pub fn check_metrics(&mut self, out: &mut Vec<String>) {
+        let ends = self.sh.handler_ends.load(Ordering::SeqCst);
+        let max_inner = self.sh.max_inner_ns.load(Ordering::SeqCst) as u128;
+        let mut seen = None;
+        for (hid, h) in self.handles.iter().enumerate() {
+            let r = match h {
+                Some(H::Strong(r)) => r.clone(),
+                Some(H::Weak(w)) => match w.upgrade() {
+                    Some(r) => r,
+                    None => continue,
+                },
+                None => continue,
+            };
+            let (c, avg, max, errs) = (r.message_count(), r.avg_processing_time(), r.max_processing_time(), r.error_count());
+            let snap = r.metrics();
+            if c != ends {
+                out.push(format!("message_count() = {c} through handle {hid} but {ends} handler(s) have been entered and left"));
+            }
+            if c < self.last_count {
+                out.push(format!("message_count() went down from {} to {c}", self.last_count));
+            }
+            if avg > max {
+                out.push(format!("avg_processing_time {avg:?} > max_processing_time {max:?} at quiescence"));
+            }
+            if max.as_nanos() < max_inner {
+                out.push(format!("max_processing_time {max:?} is below {max_inner} ns demonstrably spent inside one handler"));
+            }
+            if snap.message_count != c || snap.avg_processing_time != avg || snap.max_processing_time != max || snap.error_count != errs {
+                out.push(format!("metrics() snapshot {snap:?} disagrees with the accessors ({c}, {avg:?}, {max:?}, {errs})"));
+            }
+            if let Some(prev) = seen {
+                if prev != c {
+                    out.push(format!("two handles of one actor report different message counts: {prev} and {c}"));
+                }
+            }
+            seen = Some(c);
+        }
+        if let Some(c) = seen {
+            self.last_count = c;
+        }
+    }
+    #[cfg(not(feature = "metrics"))]
+    pub fn check_metrics(&mut self, _out: &mut Vec<String>) {}
 }
 
 fn words(line: &str) -> Vec<&str> {
@@ -197,6 +255,8 @@ pub fn parse_spawn(ws: &[&str]) -> Option<(usize, Shared)> {
         gate: Semaphore::new(0),
         waiting: AtomicBool::new(false),
         in_stop: AtomicBool::new(false),
+        handler_ends: std::sync::atomic::AtomicU64::new(0),
+        max_inner_ns: std::sync::atomic::AtomicU64::new(0),
         start_out: SOut::Ok,
         stop_out: SOut::Ok,
         run_outs: vec![],
@@ -532,6 +592,8 @@ pub struct RunOut {
     pub raw: Vec<String>,
     /// at the end no hook was waiting for its gate
     pub settled: bool,
+    /// failures of oracles applied to the real crate alone (not a comparison with the model)
+    pub oracle: Vec<String>,
 }
 
 pub fn run_with<F: FnMut(Option<&World>) -> Option<String>>(
@@ -544,6 +606,7 @@ pub fn run_with<F: FnMut(Option<&World>) -> Option<String>>(
     let mut raw = vec![];
     let mut settled = false;
     let mut script = vec![];
+    let mut oracle = vec![];
     let rt = tokio::runtime::Builder::new_current_thread()
         .enable_time()
         .start_paused(true)
@@ -574,6 +637,7 @@ pub fn run_with<F: FnMut(Option<&World>) -> Option<String>>(
                             handles: vec![Some(H::Strong(r))],
                             next_oid: 0,
                             erase: erase_seed.map(crate::rng::Rng::new),
+                            last_count: 0,
                         });
                     }
                     None => {
@@ -607,12 +671,21 @@ pub fn run_with<F: FnMut(Option<&World>) -> Option<String>>(
             out.push("--".into());
             raw.extend(r);
             raw.push("--".into());
+            if let Some(w) = world.as_mut() {
+                let mut o = vec![];
+                w.check_metrics(&mut o);
+                for x in o {
+                    if oracle.len() < 10 {
+                        oracle.push(format!("after step {} ({}): {x}", script.len(), line.trim()));
+                    }
+                }
+            }
         }
         settled = world.as_ref().map(|w| !w.sh.waiting.load(Ordering::SeqCst)).unwrap_or(true);
         drop(world);
     });
     drop(rt);
-    RunOut { script, canon: out, raw, settled }
+    RunOut { script, canon: out, raw, settled, oracle }
 }
 
 /// Runs a fixed script.
